@@ -147,7 +147,14 @@ def job(item):
             again = bmc(norm, check, skip, hit["k"], None, tag, param_vals=vals, observable=observable) if vals else hit
             if again and "error" not in again:
                 t = check[hit["var"]]
-                out["records"].append({"kind": "violation", "key": f"{pid}|fp={fp}|{hit['var']}", "tag": tag,
+                key = f"{pid}|fp={fp}|{hit['var']}"
+                standins = any(a.kind == "dist" and a.payload[0] == "Bernoulli" and any(sy.startswith("_prob") for q in a.payload[1] for sy in q.symbols())
+                               for a in norm.all_assigns(norm.body))
+                if standins and (hit["var"] + "0") in vals and hit["var"] not in set(src.assigned_vars(src.initial)):
+                    # the loop guard is not decidable on the initial values (it was abstracted into a stand-in with a symbolic
+                    # probability): the repair dff67f2 keeps the old behaviour there, see known_findings.json
+                    key = "uninitialised variable under a loop guard that is abstracted (symbolic guard)"
+                out["records"].append({"kind": "violation", "key": key, "tag": tag,
                                        "what": f"type_fp_iterations={fp}: {hit['var']} : Finite({', '.join(map(str, t))}) but after {hit['k']} iteration(s) it holds {again['value']}"
                                                + (f" at {dict((k, str(v)) for k, v in vals.items())}" if vals else ""),
                                        "replay": {"text": text, "fp_iterations": fp, "variable": hit["var"], "type": [str(x) for x in t], "iteration": hit["k"],
